@@ -47,6 +47,9 @@ type Scenario struct {
 	LocalEnd  bool       `json:"local_end"`
 	// CloseErr: closing the stream reports an error (a transport that cannot say goodbye)
 	CloseErr bool `json:"close_err,omitempty"`
+	// LazyClose: closing the stream does not wake the endpoint's pending Read
+	// (pipe:// and user supplied streams behave so)
+	LazyClose bool `json:"lazy_close,omitempty"`
 	// IdleSub: the first subscriber does not read until the connection is
 	// lost, so the events sent to it (up to 150: more than its queue holds)
 	// wait in its pipeline meanwhile
@@ -108,6 +111,7 @@ func genCase(t *rapid.T) Case {
 		sc.EndedSub = true
 	}
 	sc.CloseErr = rapid.IntRange(0, 4).Draw(t, "closeerr") == 0
+	sc.LazyClose = rapid.IntRange(0, 3).Draw(t, "lazyclose") == 0
 	sc.MaxRead = rapid.SampledFrom([]int{0, 5, 13, 28}).Draw(t, "maxread")
 	sc.LocalEnd = rapid.Bool().Draw(t, "localend")
 	return Case{Scenario: sc}
@@ -156,6 +160,8 @@ func run(sc Scenario, fault *hio.Fault, localCloseAt int) runResult {
 	s := hio.NewScriptStream(fault)
 	s.MaxRead = sc.MaxRead
 	s.CloseErr = sc.CloseErr
+	s.LazyClose = sc.LazyClose
+	defer s.Release()
 	resume := make(chan struct{})
 	var resumeOnce sync.Once
 	wake := func() { resumeOnce.Do(func() { close(resume) }) }
